@@ -16,7 +16,7 @@ def harnesses(tier, findings):
     _sp = importlib.util.spec_from_file_location("c10", os.path.join(VERIF, "props", "C10.py"))
     _c10 = importlib.util.module_from_spec(_sp); _c10.H = H; _c10.VERIF = VERIF; _c10.REPO = REPO
     _sp.loader.exec_module(_c10)
-    for arr, ss, ch, die in (((2,), 0, 1, 0), ((1, 1), 1, 8, 1), ((3,), 0, 8, 2), ((2, 1), 1, 1, 3)) + ((((1, 2), 0, 8, 4), ((4,), 0, 1, 5), ((2, 2), 1, 8, 6), ((3,), 0, 1, 1)) if tier == "thorough" else ()):
+    for arr, ss, ch, die in (((2,), 0, 1, 0), ((1, 1), 1, 8, 1), ((3,), 0, 8, 2), ((2, 1), 1, 1, 3)) + ((((1, 2), 0, 8, 0), ((4,), 0, 1, 2), ((2, 2), 1, 8, 3), ((3,), 0, 1, 1), ((2,), 1, 8, 2), ((1, 1), 0, 1, 3)) if tier == "thorough" else ()):
         fh = _c10.sched(4, 2, arr, ss, ch)
         fh.defines.append("DIE_AT=%d" % die)
         fh.name = fh.name.replace("filter_flush", "filter_sinkdied") + "_die%d" % die
